@@ -579,7 +579,7 @@ func genOverload(r *vh.Rand) string {
 	ninst := r.Range(1, 3)
 	burst := r.Range(30, 90)
 	rps := r.PickInt([]int{200, 300, 400})
-	ms := r.PickInt([]int{400, 500, 600})
+	ms := r.PickInt([]int{250, 500, 750}) // fractions of a second that are exact in binary: rps*ms/1000 tokens, no rounding
 	if t := burst + rps*ms/1000; t < 150 {
 		burst += 150 - t
 	}
